@@ -19,6 +19,8 @@ LABEL_POOLS = [
     ['gnd', 'Vcc', 'n1', 'N1', 'out', 'in', 'x', 'X', 'mid'],
     ['é', 'ß', 'Ω', 'a', 'z', 'Z', 'µ', '0', '~'],
     [' ', '  ', '0 ', ' 0', '00', '0', 'O', 'o', '-'],
+    ['1', '10', '11', '12', '21', '101', '110', '2', '20'],          # labels that contain one another
+    ['a', 'aa', 'ab', 'ba', 'aab', 'b', 'bb', 'abb', 'bab'],
 ]
 
 ID_POOLS = [
